@@ -46,6 +46,11 @@ class Machine:
                 op = dict(op, key=gen.bound_key(c[1].formula["params"], op["args"]))
         out = self.world.apply(op)
         self.stats["ops"][k] = self.stats["ops"].get(k, 0) + 1
+        if out["st"] == "rej" and k == "set_value" and out.get("wrapped") and self.assigned(op):
+            # with the recalculation option on, the recomputation of a dependent failed: the error comes out of the assignment,
+            # but the assignment itself has been made (the value is an input) - an accepted edit whose follow-up work failed
+            out = dict(out, st="ok", val=None, recalculation_failed=out.get("exc"))
+            self.stats["recalc_failed_after_assignment"] = self.stats.get("recalc_failed_after_assignment", 0) + 1
         if out["st"] == "ok":
             if k in gen.EDIT_OPS:
                 refops.apply(self.ref, op)
@@ -59,6 +64,18 @@ class Machine:
             self.steps.append(op)
         self.events.append("%s %s %s" % (k, out["st"], out.get("exc") or out.get("val")))
         return out
+
+    def assigned(self, op):
+        """Is the value of a set_value operation in place as an input?"""
+        import modelx as mx
+        if not mx.get_recalc():
+            return False
+        try:
+            c = self.world.space(op["space"]).cells[op["name"]]
+            args = tuple(op.get("key", op["args"]))
+            return bool(c.is_input(*args)) and c(*args) == op["value"]
+        except Exception:
+            return False
 
     # ---- generation helpers ----------------------------------------------
     def used_names(self, space):
